@@ -2,6 +2,7 @@ import FxVerif.Model.C16
 import FxVerif.Proofs.C16Sem
 import FxVerif.Proofs.C16Store
 import FxVerif.Model.C16Tx
+import FxVerif.Proofs.C16Dep
 /-!
 # C16 — privileged messages take effect only when issued by the governance authority
 
@@ -10,7 +11,7 @@ statement before it, or a new authority-carrying handler appears without one, `a
 -/
 namespace FxVerif.Props.C16
 open FxVerif.Gen.C16 FxVerif.Model.C16
-open FxVerif.Gen (C16Sem.proposalExec C16Sem.helpers C16Sem.impls C16Sem.types C16Sem.services C16Sem.registrations C16Sem.msgInfos C16Sem.updateStoreProg)
+open FxVerif.Gen (C16Dep.impls C16Dep.helpers C16Dep.types C16Dep.unread C16Sem.proposalExec C16Sem.helpers C16Sem.impls C16Sem.types C16Sem.services C16Sem.registrations C16Sem.msgInfos C16Sem.updateStoreProg)
 
 /-- obligation over the regenerated table: every handler is guarded, or forwards to a guarded one -/
 theorem all_handlers_guarded : handlers.all (fun h => shapeOk handlers h.shape) = true := by decide
@@ -506,6 +507,38 @@ theorem governance_reaches_router {σ : Type} (P : Program) (infos : List MsgInf
   · simp [txRun, basicOk, hg]
   · simp [proposalRun, basicOk, hg]
 
+/-! ### the dependency handlers (Cosmos SDK / IBC / ethermint), regenerated from the module cache -/
+
+/-- obligation over `Gen/C16Dep.lean`: every keeper package the app imports could be read, and every dependency handler
+whose request carries an authority — except the listed `MsgExecLegacyContent` — starts (after statements that cannot
+touch state) with a rejecting `if` that must fire whenever the request's authority is not the keeper's authority string
+(a bare `!=`, or a helper made of reject-only checks one of which is that `!=`) -/
+theorem dependency_handlers_guarded :
+    C16Dep.unread = [] ∧
+    C16Dep.impls.all (fun i => depExceptions.contains i.msg ||
+      depProtected depProg i.recv i.method == some .strict) = true := by decide
+
+/-- every dependency handler (all but the listed exception), called directly with an authority string other than the
+keeper's, returns an error and leaves the state untouched — for every payload, state and whatever the rest of the
+handler does.  (That each dependency keeper's authority is the governance module account is the wiring in
+app/keepers/keepers.go: `authAddr` / `authtypes.NewModuleAddress(govtypes.ModuleName)`, `authority_wired_to_gov`
+for the ones with a module-address argument; the running app's values are monitored.) -/
+theorem dependency_handler_rejects {σ : Type} (i : Impl) (hi : i ∈ C16Dep.impls) (hx : depExceptions.contains i.msg = false)
+    (env : Env) (auth : Str) (W : World σ) (s : σ) (h : auth ≠ env.gov) :
+    exec depProg env auth W 4 i.recv i.method s = (.err, s) := by
+  have hk := List.all_eq_true.mp dependency_handlers_guarded.2 i hi
+  simp only [hx, Bool.false_or, beq_iff_eq] at hk
+  apply depProtected_sound depProg env auth W .strict _ 3 i.recv i.method s hk
+  simp only [relK, beq_eq_false_iff_ne, ne_eq]
+  exact fun he => h he.symm
+
+/-- the one-sided procedure agrees with the exact one on every fx-core guard: whatever `guardCmp` classifies, `mustReject`
+classifies the same way (so the dependency theorem is not a weaker reading of the same shapes) -/
+theorem must_reject_extends_guard_cmp :
+    C16Sem.impls.all (fun i => match firstGuard i.body with
+      | some g => guardCmp C16Sem.helpers g == mustReject C16Sem.helpers g
+      | none => true) = true := by decide
+
 /-- the guard is not vacuous: with the keeper's authority itself a guarded body runs its rest -/
 theorem gov_authority_passes_guard {σ : Type} (i : Impl) (hi : i ∈ C16Sem.impls) (g : BExpr) (rest : List Stmt)
     (hb : i.body = .rejectIf g :: rest) (env : Env) (W : World σ) (call : String → String → σ → Res × σ) (s : σ) :
@@ -724,6 +757,9 @@ example : handlers.any (fun h => match h.shape with | .forward _ => true | _ => 
 example : ∃ gov auth : List Char, lowerAscii gov ≠ lowerAscii auth := ⟨['a'], ['b'], by decide⟩
 example : updateStore ['g'] ['g'] [⟨true, [1], [], [7]⟩] [] = (.ok, [([1], [7])]) := by decide
 
+example : C16Dep.impls.length ≥ 15 := by decide
+example : C16Dep.impls.any (fun i => depExceptions.contains i.msg) = true := by decide
+example : depProtected depProg "github.com/cosmos/cosmos-sdk/x/distribution/keeper.msgServer" "CommunityPoolSpend" = some .strict := by decide
 example : C16Sem.impls.length ≥ 11 := by decide
 example : ∃ gov auth : Str, foldEq gov auth = false := ⟨[103], [48, 120], by decide⟩
 -- the governance module account of a chain with the `cosmos` prefix decodes, and other accounts exist
